@@ -18,7 +18,7 @@ from engine import astdb              # noqa: E402
 TRUSTED_BASE = [
     "clang 14 parser/type checker as the reading of /repo's C++ (JSON AST dump of the real translation units)",
     "the AST->VC lowering in /verif/engine (symbolic executor, loop cutting, frame computation)",
-    "z3 (in-process, python3-vt z3-solver) as the deciding solver",
+    "z3 5.1 as the deciding solver (in-process python3-vt z3-solver; the same query is also given to a fresh z3-new process when the in-process attempt is undecided)",
     "contracts of libstdc++ containers/algorithms and libc memcpy/memmove in /verif/engine/prelude.py",
     "A1: IEEE doubles treated as mathematical reals (no rounding, no NaN/inf)",
     "A2: libm functions as uninterpreted functions with the axioms listed in engine/prelude.py",
